@@ -164,6 +164,11 @@ def judge_pass(case):
             fails.append(("meaning-differs", {"diff": M.first_diff(expected, got)}))
         if not M.tree_equal(tuple(exp_macros.items()), tuple(got_macros.items())):
             fails.append(("macros-differ", {"diff": M.first_diff(tuple(exp_macros.items()), tuple(got_macros.items()))}))
+        # every other statement stays: as many loops and as many blocks (a subcircuit block becomes one plain block),
+        # empty ones included -- the meaning normal form cannot see an empty block, the statement count can
+        cin, cout = shape_counts(c), shape_counts(r)
+        if cin != cout:
+            fails.append(("statements-added-or-dropped", {"before (loops, blocks, empty blocks, empty loops)": cin, "after": cout}))
         hd = header_diff(kc, kr, what=("lets", "regs", "usepulses", "macros"))
         if hd:
             fails.append(("header-changed:" + "+".join(h[0] for h in hd), {"diff": hd}))
@@ -219,6 +224,33 @@ def explicit_bounds_inside(rng, prog):
         return tuple(rw(x) for x in s)
 
     return rw(prog)
+
+
+def shape_counts(circ):
+    from jaqalpaq.core import BlockStatement, LoopStatement
+
+    n = {"loops": 0, "blocks": 0, "empty-blocks": 0, "empty-loops": 0}
+
+    def walk(x, is_loop_body=False):
+        if isinstance(x, LoopStatement):
+            n["loops"] += 1
+            if len(x.statements.statements) == 0 and not x.statements.subcircuit:
+                n["empty-loops"] += 1
+            walk(x.statements, True)
+        elif isinstance(x, BlockStatement):
+            if not is_loop_body:
+                n["blocks"] += 1
+                if len(x.statements) == 0 and not x.subcircuit:
+                    n["empty-blocks"] += 1
+            for y in x.statements:
+                walk(y)
+
+    for st in circ.body.statements:
+        walk(st)
+    for m in circ.macros.values():
+        for st in m.body.statements:
+            walk(st)
+    return (n["loops"], n["blocks"], n["empty-blocks"], n["empty-loops"])
 
 
 def loop_body_is_subcircuit(s):
